@@ -213,7 +213,7 @@ Definition raises_active (x : op) : bool :=
 Lemma change_active_le c x r m m' :
   raises_active x = false -> change c x r m m' -> is_active (m_st m') = true -> is_active (m_st m) = true.
 Proof.
-  intros Hr H Ha. destruct H as [E | _ He E | route target b ttl lid m0 Ex H0 Hrd _ E | k lid _ _ _ Il _ _ _ E | k Hk Hal _ E].
+  intros Hr H Ha. destruct H as [E | _ He _ E | route target b ttl lid m0 Ex H0 Hrd _ _ E | k lid _ _ _ Il _ _ _ E | k Hk Hal _ E].
   - subst. exact Ha.
   - unfold expired, is_leased in He. apply andb_true_iff in He. destruct He as [He _].
     destruct (m_st m); simpl in He; try discriminate. reflexivity.
